@@ -170,6 +170,43 @@ RETCODE __wrap_adfReadDumpSector(struct AdfDevice * const dev, const uint32_t n,
     tprintf("R %u %u%s\n", n, size, rc==RC_OK?"":" e");
     return rc;
 }
+/* ------------------------------------------------------------------ bitmap write-order watch (C18)
+   Oracle on the real code: whenever a bitmap page of a MOUNTED volume is rewritten on the device, the bitmap-valid flag
+   of that volume's root block as it is ON THE DEVICE at that moment must be BM_INVALID (0).  The on-device flag is
+   tracked from the successful root-block writes (and read from the device the first time).  Violations go to stderr
+   (they are not part of the protocol stream that is compared with the model). */
+static long g_bmorder_violations = 0;
+static void bmorder_watch(struct AdfDevice * const dev, const uint32_t n, const uint8_t * const buf) {
+    static struct { struct AdfVolume *vol; int known; uint32_t flag; } st[64];
+    if (!dev || !dev->volList) return;
+    for (int v = 0; v < dev->nVol && v < 64; v++) {
+        struct AdfVolume *vol = dev->volList[v];
+        if (!vol || !vol->mounted || !vol->bitmapBlocks) continue;
+        if (st[v].vol != vol) { st[v].vol = vol; st[v].known = 0; }
+        uint32_t rootSec = (uint32_t)(vol->firstBlock + vol->rootBlock);
+        if (n == rootSec) {
+            st[v].flag = ((uint32_t)buf[312] << 24) | ((uint32_t)buf[313] << 16) | ((uint32_t)buf[314] << 8) | buf[315];
+            st[v].known = 1;
+            continue;
+        }
+        for (uint32_t i = 0; i < vol->bitmapSize; i++) {
+            if ((uint32_t)(vol->bitmapBlocks[i] + vol->firstBlock) != n) continue;
+            if (!st[v].known) {
+                uint8_t rb[512];
+                if (__real_adfReadDumpSector(dev, rootSec, 512, rb) == RC_OK) {
+                    st[v].flag = ((uint32_t)rb[312] << 24) | ((uint32_t)rb[313] << 16) | ((uint32_t)rb[314] << 8) | rb[315];
+                    st[v].known = 1;
+                }
+            }
+            if (st[v].known && st[v].flag != 0) {
+                g_bmorder_violations++;
+                fprintf(stderr, "BMORDER: bitmap page %u of volume %d (sector %u) rewritten while the on-disk bitmap-valid flag is %08x (not BM_INVALID)\n",
+                        i, v, n, st[v].flag);
+            }
+        }
+    }
+}
+
 RETCODE __wrap_adfWriteDumpSector(struct AdfDevice * const dev, const uint32_t n,
                                   const unsigned size, const uint8_t * const buf) {
     g_writes_op++;
@@ -180,6 +217,7 @@ RETCODE __wrap_adfWriteDumpSector(struct AdfDevice * const dev, const uint32_t n
     if (fault_now()) { tprintf("W %u %u !\n", n, size); return RC_ERROR; }
     RETCODE rc = __real_adfWriteDumpSector(dev, n, size, buf);
     tprintf("W %u %u %08x%s\n", n, size, fnv(buf,size), rc==RC_OK?"":" e");
+    if (rc == RC_OK && size == 512) bmorder_watch(dev, n, buf);
     return rc;
 }
 
